@@ -263,8 +263,7 @@ class Checker(metaclass=abc.ABCMeta):
                     language_source = 'pathname'
             del path_components, i
         if language is None and self.path.endswith('.po'):
-            language, ext = os.path.splitext(os.path.basename(self.path))
-            assert ext == '.po'
+            language = os.path.basename(self.path)[:-3]
             try:
                 language = ling.parse_language(language)
                 if language.encoding is not None:
